@@ -60,35 +60,35 @@ fn run_check(id: &str, tier: Tier, seed: u64) -> i32 {
             std_assumptions(&mut rep);
             let (n, rule): (u64, &str) = match id {
                 "C01" => (
-                    budget(tier, 4_000, 300_000),
+                    budget(tier, 20_000, 3_000_000),
                     "non-trivial = history containing a fill->amend->fill or a fill/replenish->cancel composition on one order; the invariant (aggregates = sums over iter_orders, snapshot fields, total) is re-checked after every operation and after every rebuild route",
                 ),
                 "C02" => (
-                    budget(tier, 4_000, 300_000),
+                    budget(tier, 20_000, 3_000_000),
                     "non-trivial = history with a match that produced >= 2 transactions (sweep over several makers or several replenishment rounds); per-call accounting + per-order lifetime ledger (supplied, adjusted by amendments, vs. sum of fills) kept across the whole history",
                 ),
                 "C04" => (
-                    budget(tier, 5_000, 400_000),
+                    budget(tier, 25_000, 3_000_000),
                     "non-trivial = history with >= 2 transactions judged; every transaction is judged against the priority-stamp relation of the statement; only a violated pair is classified through the ticket model (K1 delayed / K2 advanced / unexplained = VIOLATION)",
                 ),
                 "C15" => (
-                    budget(tier, 4_000, 300_000),
+                    budget(tier, 10_000, 1_000_000),
                     "non-trivial = history with at least one execution and one removal by cancel / price move; shadow counters fed from the client-visible events (add calls, successful cancels and moves, transaction quantities, quantity x level price) are compared with stats() after every operation",
                 ),
                 "C07" => (
-                    budget(tier, 3_000, 200_000),
+                    budget(tier, 12_000, 1_500_000),
                     "non-trivial = history in which an update found an order that had been partially filled or replenished before; every update is judged against the statement's contract on observation-before/after, and every history is re-run on a twin level that additionally receives read-only calls (listing, snapshot, package, JSON, text, serde, statistics) at random points: all results and observations must agree",
                 ),
                 "C10" => (
-                    budget(tier, 1_500, 100_000),
+                    budget(tier, 6_000, 500_000),
                     "non-trivial = history whose level, at a checked point, holds orders after at least one match traded; at random points and at the end the level is rebuilt through all seven routes and compared field for field, and constructors are fed snapshots / level data / JSON / text whose aggregate fields lie (with a harness-computed checksum for the package route)",
                 ),
                 "C11" => (
-                    budget(tier, 3_000, 200_000),
+                    budget(tier, 15_000, 2_000_000),
                     "one case = (history, restore route, continuation): non-trivial = >= 2 orders at snapshot time and a continuation that trades; maker sequences of original and restored twin are compared; a divergence is accepted only if both sequences are exactly what the ticket model predicts and a catalogued cause (K3a listing order != queue order, K3b surplus tickets) is present",
                 ),
                 _ => (
-                    budget(tier, 4_000, 300_000),
+                    budget(tier, 20_000, 3_000_000),
                     "non-trivial = history with a match issued against a level holding an order with nothing displayed; bounded progress: every match returns within the step budget, leaves no displayed quantity when it returns unfilled, executes >= min(requested, displayed at start)",
                 ),
             };
